@@ -137,6 +137,10 @@ func (c12Driver) Gen(seed uint64, tier string) *simrt.Spec {
 		w.Feeds = append(w.Feeds, fd)
 	}
 	w.Twice = r.Chance(1, 5)
+	w.ViaGenerator = r.Chance(1, 4)
+	if w.ViaGenerator && r.Chance(1, 2) {
+		w.Twice = true
+	}
 	sp.Driver, _ = json.Marshal(w)
 	return sp
 }
@@ -172,6 +176,25 @@ func (c12Driver) Run(spec *simrt.Spec, agg *Agg, keep bool) *Outcome {
 		gens := 1
 		if work.Twice {
 			gens = 2
+		}
+		if work.ViaGenerator && len(work.Feeds) > 0 {
+			// the same history through Generator.Generate: one Generator for all generations, the first
+			// party is the backend, the others are SDK plugins
+			var g generator.Generator
+			_ = g.RegisterBackend(&c12Backend{files: all[0]})
+			var sdks []plugin.SDKPlugin
+			for fi := 1; fi < len(work.Feeds); fi++ {
+				sdks = append(sdks, &c12SDK{name: work.Feeds[fi].Src, files: all[fi]})
+			}
+			for gen := 0; gen < gens; gen++ {
+				r := g.Generate(&generator.Arguments{Out: &generator.LangSpec{Language: "c12", SDKPlugins: sdks}, Req: &plugin.Request{Language: "c12", OutputPath: "."}, Log: backend.DummyLogFunc()})
+				if e := r.GetError(); e != "" {
+					feedErr, errAt = fmt.Errorf("%s", e), -2
+					return
+				}
+				resp = r
+			}
+			return
 		}
 		for gen := 0; gen < gens; gen++ {
 			fm := generator.NewFileManager(backend.DummyLogFunc())
@@ -217,7 +240,7 @@ func (c12Driver) Run(spec *simrt.Spec, agg *Agg, keep bool) *Outcome {
 	}
 	if pre.FeedErrAt >= 0 {
 		agg.Count("probe.leading-unnamed-patch", 1)
-		if feedErr == nil || errAt != pre.FeedErrAt {
+		if feedErr == nil || (errAt != pre.FeedErrAt && errAt != -2) {
 			return fail("no-target-accepted", "no-target-accepted", "Feed call %d starts with an unnamed patch but no error was returned at that call (error=%v at call %d)", pre.FeedErrAt, feedErr, errAt)
 		}
 		o.Nontrivial = true
@@ -257,6 +280,29 @@ func (c12Driver) Run(spec *simrt.Spec, agg *Agg, keep bool) *Outcome {
 	o.Detail, _ = json.Marshal(map[string]interface{}{"feeds": len(work.Feeds), "items": nItems, "kept": v.Kept, "dropped": v.Dropped, "renamed": v.Renamed, "patches": nPatches})
 	return o
 }
+
+// c12Backend / c12SDK: the parties of a history that goes through Generator.Generate
+type c12Backend struct{ files []*plugin.Generated }
+
+func (b *c12Backend) Name() string                              { return "c12" }
+func (b *c12Backend) Lang() string                              { return "c12" }
+func (b *c12Backend) Options() []plugin.Option                  { return nil }
+func (b *c12Backend) BuiltinPlugins() []*plugin.Desc            { return nil }
+func (b *c12Backend) GetPlugin(desc *plugin.Desc) plugin.Plugin { return nil }
+func (b *c12Backend) Generate(req *plugin.Request, log backend.LogFunc) *plugin.Response {
+	return &plugin.Response{Contents: b.files}
+}
+
+type c12SDK struct {
+	name  string
+	files []*plugin.Generated
+}
+
+func (s *c12SDK) Invoke(req *plugin.Request) *plugin.Response {
+	return &plugin.Response{Contents: s.files}
+}
+func (s *c12SDK) GetName() string               { return s.name }
+func (s *c12SDK) GetPluginParameters() []string { return nil }
 
 func clipList(l []string) string {
 	var out []string
